@@ -1,19 +1,81 @@
 /-
   Avt.Spec.C19 — oracle of property C19 (decidable predicates evaluated on implementation states;
   the same definitions the theorems in Avt/Props/C19.lean are stated with).
+
+  C19: after `ESC c`, from any state whatsoever, the terminal is indistinguishable from a freshly
+  built terminal of the current size and scrollback configuration.  "Indistinguishable" is taken in
+  the strongest sense: *state equality* with the fresh `Vt` (all fields, parser included), up to the
+  one thing a fresh terminal legitimately differs in — its dirty flags (a fresh `Vt` reports every
+  row as changed; after a finishing call they are cleared).  Equal states react equally to every
+  subsequent input (determinism), so nothing else has to be observed.
 -/
 import Avt.Spec.Base
 
 namespace Avt.Spec.C19
 open Avt Avt.Spec
 
-def checkStep (_ev : StepEv) : List Verdict := []
+/-- erase the dirty flags (and nothing else) -/
+def normR (v : Vt) : Vt :=
+  { v with terminal := { v.terminal with dirtyLines := Dirty.clear v.terminal.dirtyLines } }
+
+/-- the power-on terminal for the configuration `t` currently has: the three fields a reset
+    legitimately keeps are the size and the scrollback limit -/
+def freshOf (t : Terminal) : Option Terminal := Terminal.new t.cols t.rows t.scrollbackLimit
+
+/-- the power-on `Vt` for the configuration of `v` -/
+def freshVt (v : Vt) : Option Vt :=
+  Vt.new v.terminal.cols v.terminal.rows v.terminal.scrollbackLimit
+
+/-- `s` is the power-on state (up to dirty flags) for its own configuration -/
+def isPowerOn (v : Vt) : Bool :=
+  match freshVt v with
+  | some f => normR v == normR f
+  | none => false
+
+/-- does the input end with the two characters `ESC c`? -/
+def endsWithRis (input : List Nat) : Bool :=
+  match input.reverse with
+  | 0x63 :: 0x1b :: _ => true
+  | _ => false
+
+/-- step level: a call whose last emitted function is RIS leaves exactly the power-on terminal of
+    the current configuration (`hard_reset` reads nothing but `cols`, `rows`, `scrollback_limit`,
+    and no function can change those three), adjusted by the `changes()`/`gc()` tail of the call;
+    when the call's input ends with `ESC c` the parser is the power-on parser, registers included. -/
+def checkStep (ev : StepEv) : List Verdict :=
+  if ev.funs.getLast? = some .ris then
+    let p := ev.prev.terminal
+    let keep := check "C19:ris-keeps-size-and-limit" true
+      (ev.next.terminal.cols == p.cols && ev.next.terminal.rows == p.rows
+        && ev.next.terminal.scrollbackLimit == p.scrollbackLimit)
+    match freshOf p with
+    | none => [keep]
+    | some fresh =>
+      [keep, check "C19:ris-gives-power-on-terminal" true (ev.next.terminal == afterCall ev.kind fresh)]
+        ++ (if endsWithRis ev.input
+            then [check "C19:ris-leaves-power-on-parser" true (ev.next.parser == Parser.new)] else [])
+  else []
 
 def checkNew (_cols _rows : Nat) (_lim : Option Nat) (_st : Vt) : List Verdict := []
 
 def checkParserStep (_prev : Parser) (_c : Nat) (_next : Parser) (_fn : String) : List Verdict := []
 
-def checkDirective (_name : String) (_args : List String) (_inst : String → Option Inst)
-    (_tcOut : Nat → List (List Nat)) : List Verdict × List (Nat × Inst) := ([], [])
+/-- `X C19 k0 k1`: instance `k0` went through an arbitrary history and then `ESC c`; instance `k1`
+    was built fresh with the same current size and limit; both then receive identical input.
+    The two states must be equal up to dirty flags — at once and after every continuation. -/
+def checkDirective (name : String) (args : List String) (inst : String → Option Inst)
+    (_tcOut : Nat → List (List Nat)) : List Verdict × List (Nat × Inst) :=
+  if name ≠ "C19" then ([], []) else
+  match args with
+  | [k0, k1] =>
+    match inst k0, inst k1 with
+    | some i0, some i1 =>
+      if i0.dead || i1.dead then ([], []) else
+      let fresh := i1.history == 0
+      ([check (if fresh then "C19:state-after-ris-equals-fresh" else "C19:state-after-ris+continuation-equals-fresh+continuation")
+          true (normR i0.st == normR i1.st)]
+        ++ (if fresh then [check "C19:state-after-ris-is-power-on" true (isPowerOn i0.st)] else []), [])
+    | _, _ => ([], [])
+  | _ => ([], [])
 
 end Avt.Spec.C19
